@@ -114,6 +114,18 @@ def export_graph(tier: str):
     return configs, edges, res
 
 
+def simulate_graph(tier: str, configs):
+    """deep random behaviours of M (TLC -simulate): edges along walks of depth 16"""
+    num = 400 if tier == "quick" else 6000
+    res = run_tlc("BreakerMC.tla", "BreakerMC_sim.cfg", workers=4, simulate=f"num={num}", depth=16,
+                  seed=seed() + 1, tag="brk-sim", timeout=3000)
+    if not res.ok:
+        raise Machinery(f"BreakerMC simulation violated {res.violated}")
+    if res.tagged["CONFIGS"][0][0] != configs:
+        raise Machinery("configuration order differs between TLC runs")
+    return [e[0] for e in res.tagged.get("EDGE", [])]
+
+
 class _ModelBreaker:
     """RealBreaker driven by model-level events (classes A,B,C) through a class map."""
 
@@ -156,6 +168,25 @@ def random_history(rng: random.Random, length: int) -> dict:
     t = 0
     opened_at = None
     evs = []
+    if counted and rng.random() < 0.5:
+        # cycle-shaped history: fail until open, wait for recovery, probe, settle, fail again soon
+        while len(evs) < length:
+            o = rb.do("fail", rng.choice(counted), t)
+            evs.append(o)
+            if o["state"] == "open":
+                t += R + rng.choice([-1, 0, 0, 0, 1])
+                evs.append(rb.do("allow", "-", max(t, o["t"])))
+                t = max(t, o["t"])
+                x = rng.random()
+                if x < 0.6:
+                    evs.append(rb.do("ok", "-", t))
+                elif x < 0.8:
+                    evs.append(rb.do("fail", rng.choice(ALL_CLASSES), t))
+                else:
+                    evs.append(rb.do("cancel", "-", t))
+                    evs.append(rb.do("allow", "-", t))
+            t += rng.choice([0, 0, 1, 1, W - 1, W])
+        return {"cfg": cfg, "ev": evs[:length + 4]}
     for _ in range(length):
         # clock advance: favour the boundaries of both windows
         if opened_at is not None and rng.random() < 0.5:
@@ -208,6 +239,9 @@ def check(prop: str, tier: str) -> Report:
     rng = random.Random(seed() * 7919 + 17)
     mc = model_check(tier)
     configs, edges, exp = export_graph(tier)
+    deep = simulate_graph(tier, configs)
+    n_exh = len(edges)
+    edges = edges + deep
     g = replay_graph(configs, edges, rng, n_walks=2000 if tier == "quick" else 20000)
     n_traces, n_ops, mism, samples = g["n_traces"], g["n_ops"], g["mismatches"], g["samples"]
     n_rand = 1500 if tier == "quick" else 20000
@@ -236,7 +270,7 @@ def check(prop: str, tier: str) -> Report:
     rep.coverage.update(mc)
     rep.coverage.update({
         "traces_validated_against_impl": n_traces + len(rand),
-        "graph_edges_exported": len(edges),
+        "graph_edges_exported": n_exh, "simulated_deep_edges": len(deep),
         "graph_replays": n_traces,
         "graph_replay_ops": n_ops,
         "replay_mismatches": len(mism),
